@@ -113,10 +113,12 @@ func (w *world) signersFor(t *tcase) []int {
 
 func (w *world) runCase(t *tcase) {
 	// the message must succeed for the principal in this state (discarded)
+	probeOK := true
 	{
 		probe, _ := w.ctx.CacheContext()
 		cls, err := w.deliver(probe, t.mk(t.principal))
 		if cls != kapp.OK {
+			probeOK = false
 			// not a state of the property's quantifier ("the message would succeed for the principal"), but the
 			// other signers are still replayed: a guard that lets only non-principals through must not hide here
 			w.out.Note("principal-setup-failed:" + t.cmd)
@@ -151,7 +153,7 @@ func (w *world) runCase(t *tcase) {
 		if allowed {
 			role = "principal"
 		}
-		fields := append([]string{kind, itoa(s)}, pre...)
+		fields := append([]string{kind, itoa(s), c.B(probeOK)}, pre...)
 		fields = append(fields, "=>", string(cls), c.B(changed), errcode(err))
 		fields = append(fields, post...)
 		fields = append(fields, idxList(chg))
